@@ -56,6 +56,7 @@ from vk.ring import LP, co
 from vk.symnp import det_ref
 
 TRUSTED = M.TRUSTED + HD.TRUSTED + [
+    "C11/C03 (A3, scope): tensortrax returns exact first derivatives; second derivatives of eigh eigenbases are NOT exact (open finding: tensortrax.math.linalg.eigh omits the variation of N_a (x) N_b inside dA_ab in the second variation of the eigenvectors; seen natively in saint_venant_kirchhoff_orthotropic(k != 2): elasticity != D(stress), tangent at F = I for rotated normals)",
     "C11: scipy.special.erf is the function atom erf (erf(0)=0, odd, erf' = 2/sqrt(pi) exp(-z^2)); np.maximum / np.isclose on symbolic values are decided by the branch oracle under the contract's `requires` (primary / unloading path of OgdenRoxburgh), exact equality for isclose",
     "C11: real exponents: ogden alpha_i, lopez_pamies alpha_r, storakers alpha_i / beta_i (both back ends), extended_tube beta (both back ends) and saint_venant_kirchhoff k (k != 2, k != 0: the code branches on k == 2 / k == 0, those two values are separate configurations) are universally quantified reals of the `*=real` configurations (power atoms pw = base**expo of the ring kernel, base > 0 logged, d pw = pw (expo d base / base + log(base) d expo), pw(1, e) = 1, pw(p, e + k) = pw(p, e) p^k, pw(root(p, n), e) = pw(p, e/n)); no assumption on the exponents except the denominators the executed code divides by (alpha_i != 0, beta_i != 0, k != 0: listed as side conditions).  The rational instantiations are kept as additional configurations (they exercise the root-atom path).  Still instantiated / not reached: saint_venant_kirchhoff_orthotropic k != 2 (eigh eigenvectors of a non-diagonal argument; no diagonal restriction for an anisotropic energy), micro-sphere p, q (21-point float sphere rule: the stress-free reference holds to table accuracy only; bounded native stand-in)",
     "C11: jax principal-stretch models (storakers, extended_tube) add a literal diag(0, +-1e-4) to C before eigvalsh: isotropy and the stress-free reference are proved for the real code object with that literal replaced by 0 (identity at perturbation 0); with the literal the reference stress is O(1e-4 * modulus)",
@@ -740,6 +741,7 @@ def _svk_orthotropic_k_standin(vk):
         q = q * np.sign(np.diag(r_))
         return q * np.linalg.det(q)
 
+    obs_a, obs_t = [], []
     with symnp.native():
         th = 0.4
         normals = {"aligned": np.eye(3), "rotated": np.array([[np.cos(th), np.sin(th), 0.0], [-np.sin(th), np.cos(th), 0.0], [0.0, 0.0, 1.0]])}
@@ -764,7 +766,7 @@ def _svk_orthotropic_k_standin(vk):
                 for k in (0, 1, 3, 0.5, -1.0, 2.0000001, 2.0):
                     try:
                         uk = mk(k)
-                        worst_e = worst_t = worst_o = 0.0
+                        worst_e = worst_t = worst_o = worst_a = 0.0
                         for F in Fs:
                             Cq = F[..., 0, 0].T @ F[..., 0, 0]
                             w, N = np.linalg.eigh(Cq)
@@ -783,22 +785,38 @@ def _svk_orthotropic_k_standin(vk):
                                     dFm[i, j] = h
                                     dP = (np.asarray(uk.gradient([F + dFm, None])[0]) - np.asarray(uk.gradient([F - dFm, None])[0]))[..., 0, 0] / (2 * h)
                                     dW = (energy(F + dFm, k) - energy(F - dFm, k)) / (2 * h)
-                                    worst_t = max(worst_t, float(np.abs(A[:, :, i, j] - dP).max()), abs(P[i, j] - dW))
+                                    worst_t = max(worst_t, abs(P[i, j] - dW))
+                                    worst_a = max(worst_a, float(np.abs(A[:, :, i, j] - dP).max()))
+                            worst_a = max(worst_a, float(np.abs(A - major_T(A)).max()))
                             Qm = rotm().reshape(3, 3, 1, 1)
                             PQ = np.asarray(uk.gradient([M.mm(Qm, F), None])[0])
                             worst_o = max(worst_o, float(np.abs(PQ - M.mm(Qm, P.reshape(3, 3, 1, 1))).max()))
                         P0 = float(np.abs(np.asarray(uk.gradient([EYE.copy(), None])[0])).max())
                         dA0 = float(np.abs(np.asarray(uk.hessian([EYE.copy(), None])[0])[..., 0, 0] - Aspec).max())
                         vk.bounded_standin(f"{tag}(k={k}): energy == k=2 energy of the Seth-Hill strain (C^(k/2) - 1)/k [ln(C)/2 for k=0] (native float, relative)", "3 random F", len(Fs), worst_e < 1e-6, f"max relative deviation {worst_e:.2e}")
-                        vk.bounded_standin(f"{tag}(k={k}): tangent at F = I == (rotated) LinearElasticOrthotropic stiffness via lame_converter_orthotropic (native float)", "F = I, tolerance 1e-5 (tensortrax eigh perturbs C by sqrt(eps))", 1, dA0 < 1e-5, f"max deviation {dA0:.2e}")
+                        if rname == "aligned" or k == 2.0:
+                            vk.bounded_standin(f"{tag}(k={k}): tangent at F = I == (rotated) LinearElasticOrthotropic stiffness via lame_converter_orthotropic (native float)", "F = I, tolerance 1e-5 (tensortrax eigh perturbs C by sqrt(eps))", 1, dA0 < 1e-5, f"max deviation {dA0:.2e}")
+                        else:
+                            obs_t.append((sname, rname, k, dA0))
                         vk.bounded_standin(f"{tag}(k={k}): stress-free reference (native float)", "F = I, tolerance 1e-6", 1, P0 < 1e-6, f"max |P(I)| = {P0:.2e}")
-                        vk.bounded_standin(f"{tag}(k={k}): stress == D(energy), elasticity == D(stress) (native float, central differences h=1e-5)", "3 random F x 9 directions", 9 * len(Fs), worst_t < 1e-4, f"max deviation {worst_t:.2e}")
+                        vk.bounded_standin(f"{tag}(k={k}): stress == D(energy) (native float, central differences h=1e-5)", "3 random F x 9 directions", 9 * len(Fs), worst_t < 1e-4, f"max deviation {worst_t:.2e}")
+                        obs_a.append((sname, rname, k, worst_a))
                         vk.bounded_standin(f"{tag}(k={k}): objectivity P(Q F) == Q P(F) (native float)", "3 random F, 3 random rotations", len(Fs), worst_o < 1e-8, f"max deviation {worst_o:.2e}")
                         if k in (2.0000001, 2.0):
                             dev = max(float(np.abs(np.asarray(uk.gradient([F, None])[0]) - p2).max()) for F, p2 in zip(Fs, P2))
                             vk.bounded_standin(f"{tag}(k={k}): stress continuous in k at 2 (== stress of the default k) (native float)", "3 random F, tolerance 1e-5", len(Fs), dev < 1e-5, f"max deviation {dev:.2e}")
                     except Exception as e:  # pragma: no cover
                         vk.bounded_standin(f"{tag}(k={k}): native stand-in failed", "-", 0, False, f"{type(e).__name__}: {str(e)[:160]}")
+    k2 = max(w for *_, k, w in obs_a if k == 2.0)
+    vk.bounded_standin("saint_venant_kirchhoff_orthotropic(k=2.0): elasticity == D(stress) and major symmetry (general F; native float, central differences h=1e-5)", "2 parameter sets x 2 normal sets x 3 random F x 9 directions", 108, k2 < 1e-4, f"max deviation {k2:.2e}")
+    # the two clauses below FAIL on the current tree (open known findings; cause: tensortrax.math.linalg.eigh builds the second
+    # variation of the eigenvectors without the variation of N_a (x) N_b inside dA_ab -- second derivatives of the eigenbases
+    # are not exact).  One stand-in per clause; k, parameter set and measured deviation are in the detail text
+    rest = [(s_, r_, k, w) for s_, r_, k, w in obs_a if k != 2.0]
+    bad = [x for x in rest if not x[3] < 1e-4]
+    vk.bounded_standin("saint_venant_kirchhoff_orthotropic/k!=2: elasticity == D(stress) and major symmetry (general F)", "2 parameter sets x 2 normal sets x k in (0, 1, 3, 0.5, -1, 2.0000001) x 3 random F x 9 directions, central differences h=1e-5, tolerance 1e-4", 27 * len(rest), bool(rest) and not bad, "; ".join(f"parameters {s_}, normals {r_}, k={k}: max deviation {w:.2e}" for s_, r_, k, w in (bad or rest)))
+    bad_t = [x for x in obs_t if not x[3] < 1e-5]
+    vk.bounded_standin("saint_venant_kirchhoff_orthotropic/k!=2, rotated normals: tangent at F=I == rotated LinearElasticOrthotropic stiffness", "2 parameter sets x k in (0, 1, 3, 0.5, -1, 2.0000001), normals rotated by 0.4 about e3, tolerance 1e-5", len(obs_t), bool(obs_t) and not bad_t, "; ".join(f"parameters {s_}, k={k}: max deviation {w:.2e}" for s_, r_, k, w in (bad_t or obs_t)))
 
 
 # ------------------------------------------------------------------------------------------------
